@@ -381,6 +381,23 @@ impl<'w> Run<'w> {
                        "recv":outcome.num_recv,"sent":outcome.num_sent,"hrecv":hr,
                        "cfg": json!([op["split"].as_u64().unwrap_or(2), op["maxset"].as_u64().unwrap_or(1)])})
             }
+            "news" => {
+                let mut heads = iroh_docs::AuthorHeads::default();
+                let mut theirs = vec![];
+                for h in op["heads"].as_array().unwrap() {
+                    let a = h[0].as_i64().unwrap();
+                    let t = h[1].as_u64().unwrap();
+                    heads.insert(w.author(a).id(), t);
+                    theirs.push(json!({"a": a, "ts": t}));
+                }
+                let res = self.store.as_mut().unwrap().has_news_for_us(w.nsid(), &heads);
+                let count = match res {
+                    Ok(Some(n)) => n.get() as i64,
+                    Ok(None) => 0,
+                    Err(_) => -1,
+                };
+                json!({"ev":"News","theirs":theirs,"count":count})
+            }
             "sub" => {
                 let s = op["s"].as_u64().unwrap() as usize;
                 let (tx, rx) = async_channel::unbounded();
@@ -532,6 +549,10 @@ pub fn gen_history(r: &mut Rng, g: &GenCfg) -> Vec<Value> {
             json!({"op":"remove"})
         } else if g.admin && x < 22 {
             json!({"op":"reopen"})
+        } else if g.admin && x < 27 {
+            let na = r.below(g.n_auth as usize + 1);
+            let hs: Vec<Value> = (1..=na).map(|a| json!([a, 1 + r.below(g.max_ts as usize + 1)])).collect();
+            json!({"op":"news","heads":hs})
         } else if x < 40 {
             let a = 1 + r.below(g.n_auth as usize) as i64;
             let k = KEYS[r.below(g.n_keys)];
